@@ -1,5 +1,262 @@
-"""Extend-split / cell strategy harness pieces (filled in with C07)."""
+"""Extend-split (and cell) strategy harness pieces, shared by C07 and C04."""
+import itertools
+from fractions import Fraction
+
+import numpy as np
+
+from lift import core, lib
+from lift.core import sym_and, sym_or, sym_not, is_sym
+from lift.run import Job
+
+
+def mods():
+    from sparseSpACE import spatiallyAdaptiveExtendSplit as ES
+    from sparseSpACE import spatiallyAdaptiveCell as CELL
+    from sparseSpACE import GridOperation, Grid, ErrorCalculator, RefinementObject, RefinementContainer
+    return ES, CELL, GridOperation, Grid, ErrorCalculator, RefinementObject, RefinementContainer
+
+
+def make_es(S, f, d, box, boundary, version, nrbe, auto, single_dim, pool):
+    """Extend-split instance on the real classes with P3 stand-ins for the error / benefit estimates:
+      calc_error(objectID)            -> error 1 or 0 chosen by the solver for the first `pool` new areas of a round, 0 otherwise
+      compute_benefits_for_operations -> extend/split benefits chosen by the solver (automatic_extend_split)
+      get_twin_error                  -> arbitrary non-negative value per call (split_single_dim)
+    Everything that decides geometry, coarsening, scheme and values is the real code."""
+    ES, CELL, GO, G, EC, RO, RC = mods()
+    a = np.array([box[0]] * d, dtype=float)
+    b = np.array([box[1]] * d, dtype=float)
+    grid = G.TrapezoidalGrid(a=a, b=b, boundary=boundary)
+    op = GO.Integration(f=f, grid=grid, dim=d)
+    sa = ES.SpatiallyAdaptiveExtendScheme(a, b, number_of_refinements_before_extend=nrbe, version=version, automatic_extend_split=auto,
+                                          split_single_dim=single_dim, operation=op)
+    state = {'round': -1, 'k': 0, 'calls': 0}
+
+    def calc_error(objectID):
+        r = len(sa.error_array)
+        if r != state['round']:
+            state['round'] = r
+            state['k'] = 0
+        if state['k'] < pool:
+            v = float(S.choice('err%d_%d' % (r, state['k']), 2))
+        else:
+            v = 0.0
+        state['k'] += 1
+        sa.refinement.get_object(objectID).set_error(v)
+
+    def benefits(area):
+        n = state['calls']
+        state['calls'] += 1
+        ext = S.flag('extend%d' % n)
+        area.parent_info.benefit_extend = 0.0 if ext else 1.0
+        area.parent_info.benefit_split = 1.0 if ext else 0.0
+        area.parent_info.extend_error_correction = 0.0
+
+    def twin_error(dd, area, norm):
+        v = S.fresh_real('twin')
+        S.assume(v >= 0)
+        return v
+
+    sa.calc_error = calc_error
+    sa.compute_benefits_for_operations = benefits
+    if single_dim:
+        sa.get_twin_error = twin_error
+    return sa, op, grid, a, b
+
+
+def leaves(sa):
+    return list(sa.refinement.get_objects())
+
+
+def tiling_goals(S, sa, d, a, b, tag):
+    objs = leaves(sa)
+    boxes = [([float(x) for x in o.start], [float(x) for x in o.end]) for o in objs]
+    S.prove(all(all(s[k] < e[k] for k in range(d)) for s, e in boxes), tag + ':areas-are-nondegenerate-boxes')
+    S.prove(all(all(a[k] <= s[k] and e[k] <= b[k] for k in range(d)) for s, e in boxes), tag + ':areas-inside-domain')
+    vol = sum(np.prod([e[k] - s[k] for k in range(d)]) for s, e in boxes)
+    S.prove(abs(vol - np.prod([b[k] - a[k] for k in range(d)])) <= 1e-12 * abs(vol), tag + ':area-volumes-sum-to-domain-volume')
+    disjoint = True
+    for i in range(len(boxes)):
+        for j in range(i + 1, len(boxes)):
+            overlap = all(min(boxes[i][1][k], boxes[j][1][k]) > max(boxes[i][0][k], boxes[j][0][k]) for k in range(d))
+            disjoint = disjoint and not overlap
+    S.prove(disjoint, tag + ':areas-have-pairwise-disjoint-interiors')
+    S.prove(all(o.coarseningValue >= 0 for o in objs), tag + ':coarsening-values-never-negative')
+    # point assignment: vertices, face centres and cell centres of all leaves
+    pts = set()
+    for s, e in boxes:
+        for combo in itertools.product(*[(s[k], (s[k] + e[k]) / 2, e[k]) for k in range(d)]):
+            pts.add(tuple(combo))
+    pts = sorted(pts)
+    assign = sa.get_points_assignement_to_areas(pts)
+    seen = {}
+    ok_contains = True
+    leaf_ids = set(id(o) for o in objs)
+    ok_leaf = True
+    for area, contained in assign:
+        ok_leaf = ok_leaf and id(area) in leaf_ids
+        for p in contained:
+            seen[tuple(p)] = seen.get(tuple(p), 0) + 1
+            ok_contains = ok_contains and all(area.start[k] <= p[k] <= area.end[k] for k in range(d))
+    S.prove(ok_leaf, tag + ':points-are-assigned-to-leaf-areas')
+    S.prove(ok_contains, tag + ':assigned-area-contains-the-point')
+    S.prove(all(seen.get(p, 0) == 1 for p in pts), tag + ':every-point-assigned-to-exactly-one-leaf')
+
+
+def local_combination_goals(S, sa, d, f, tag, out_len=1, interp=True):
+    """Per area: coefficients of the component grids that are actually computed sum to 1 at every grid point of the area;
+    the local interpolant reproduces F there."""
+    ok_sum = True
+    per_area = []
+    for area in leaves(sa):
+        count = {}
+        for cg in sa.scheme:
+            lv, do_compute = sa.coarsen_grid(cg.levelvector, area)
+            if not do_compute:
+                continue
+            sa.grid.setCurrentArea(area.start, area.end, lv)
+            for p in sa.grid.getPoints():
+                p = tuple(float(x) for x in p)
+                count[p] = count.get(p, 0) + cg.coefficient
+        ok_sum = ok_sum and all(v == 1 for v in count.values()) and len(count) > 0
+        per_area.append((area, sorted(count)))
+    S.prove(ok_sum, tag + ':computed-grids-have-coefficient-sum-one-at-every-area-grid-point')
+    if not interp:
+        return
+    # local interpolant of each area (the body of the library's interpolate_points, restricted to one area) at the area's own grid points
+    ok = True
+    for area, pts in per_area:
+        if not pts:
+            continue
+        total = None
+        for cg in sa.scheme:
+            lv, do_compute = sa.coarsen_grid(cg.levelvector, area)
+            if not do_compute:
+                continue
+            sa.grid.setCurrentArea(start=area.start, end=area.end, levelvec=lv)
+            vals = sa.operation.interpolate_points_component_grid(cg, sa.grid.coordinate_array, pts)
+            total = vals * cg.coefficient if total is None else total + vals * cg.coefficient
+        for p, v in zip(pts, total):
+            want = f.F(list(p))
+            ok = sym_and(ok, *[v[j] == want[j] for j in range(out_len)])
+    S.prove(ok, tag + ':local-interpolant-reproduces-F-at-area-grid-points')
+    # through the public __call__ at points strictly inside an area (unambiguous assignment)
+    inner = sorted(set(p for area, pts in per_area for p in pts
+                       if all(float(area.start[k]) < p[k] < float(area.end[k]) for k in range(d))))
+    if inner:
+        vals = sa(inner)
+        ok = True
+        for p, v in zip(inner, vals):
+            want = f.F(list(p))
+            ok = sym_and(ok, *[v[j] == want[j] for j in range(out_len)])
+        S.prove(ok, tag + ':public-call-reproduces-F-at-interior-area-grid-points')
+
+
+def run_es(S, d, lmin, lmax, box, boundary, version, nrbe, auto, single_dim, pool, cap, f, after_round=None):
+    sa, op, grid, a, b = make_es(S, f, d, box, boundary, version, nrbe, auto, single_dim, pool)
+    orig_refine = sa.refine
+
+    def observed_refine():
+        r = orig_refine()
+        if after_round is not None:
+            after_round(sa, a, b)
+        return r
+
+    sa.refine = observed_refine
+    res = sa.performSpatiallyAdaptiv(lmin, lmax, None, tol=-1.0, max_evaluations=cap, print_output=False)
+    return sa, op, a, b, res
+
+
+# ---------------------------------------------------------------------------------------------------
+def multilinear(S, d):
+    from sparseSpACE.Function import Function
+    coeffs = {e: S.real('c' + ''.join(map(str, e))) for e in itertools.product((0, 1), repeat=d)}
+
+    class ML(Function):
+        def eval(self, x):
+            tot = 0
+            for e, c in coeffs.items():
+                term = c
+                for k in range(d):
+                    if e[k]:
+                        term = term * x[k]
+                tot = tot + term
+            return tot
+
+        def eval_vectorized(self, coordinates):
+            coordinates = np.asarray(coordinates)
+            out = np.empty(coordinates.shape[:-1] + (1,), dtype=object if S.lifted else float)
+            for idx in np.ndindex(coordinates.shape[:-1]):
+                out[idx] = self.eval(coordinates[idx])
+            return out
+
+    def exact(a, b):
+        tot = 0
+        for e, c in coeffs.items():
+            term = c
+            for k in range(d):
+                term = term * ((b[k] * b[k] - a[k] * a[k]) / 2 if e[k] else (b[k] - a[k]))
+            tot = tot + term
+        return tot
+
+    return ML(), exact
+
+
+def es_exact(S, d, lmin, lmax, box, version, nrbe, auto, single_dim, pool, cap):
+    f, exact = multilinear(S, d)
+    sa, op, a, b, res = run_es(S, d, lmin, lmax, box, True, version, nrbe, auto, single_dim, pool, cap, f)
+    S.observe('points', [int(x) for x in res[6]])
+    S.observe('integral', list(np.ravel(res[3])))
+    S.prove(S.eq(np.ravel(res[3])[0], exact([float(x) for x in a], [float(x) for x in b])), 'extendsplit:multilinear-function-integrated-exactly')
+
+
+def cell_exact(S, d, level, box, cap, pool):
+    """Cell strategy in its supported lmin=lmax configuration: multilinear functions stay exact along solver-chosen histories."""
+    ES, CELL, GO, G, EC, RO, RC = mods()
+    f, exact = multilinear(S, d)
+    a = np.array([box[0]] * d, dtype=float)
+    b = np.array([box[1]] * d, dtype=float)
+    grid = G.TrapezoidalGrid(a=a, b=b, boundary=True)
+    op = GO.Integration(f=f, grid=grid, dim=d)
+    sa = CELL.SpatiallyAdaptiveCellScheme(a, b, operation=op)
+    state = {'round': -1, 'k': 0}
+
+    class Scripted(EC.ErrorCalculator):
+        def calc_error(self_, refine_object, norm, volume_weights=None):
+            r = len(sa.error_array)
+            if r != state['round']:
+                state['round'] = r
+                state['k'] = 0
+            v = 0.0
+            if state['k'] < pool:
+                v = float(S.choice('cerr%d_%d' % (r, state['k']), 2))
+            state['k'] += 1
+            return v
+
+    res = sa.performSpatiallyAdaptiv(level, level, Scripted(), tol=-1.0, max_evaluations=cap, print_output=False)
+    S.observe('points', [int(x) for x in res[6]])
+    S.prove(S.eq(np.ravel(res[3])[0], exact([float(x) for x in a], [float(x) for x in b])), 'cell:multilinear-function-integrated-exactly')
 
 
 def c04_jobs(tier):
-    return []
+    q = tier == 'quick'
+    js = []
+    cfgs = []
+    for version in (0, 1, 2):
+        for nrbe in (1, 2):
+            cfgs.append((2, 1, 2, (0.0, 1.0) if version != 1 else (-3.0, 6.0), version, nrbe, False, False))
+    cfgs.append((2, 1, 2, (0.0, 1.0), 0, 1, True, False))
+    cfgs.append((2, 1, 2, (0.0, 1.0), 0, 1, False, True))
+    if not q:
+        cfgs.append((2, 1, 3, (0.0, 1.0), 0, 1, False, False))
+        cfgs.append((2, 2, 3, (0.0, 1.0), 1, 1, False, False))
+        cfgs.append((3, 1, 2, (0.0, 1.0), 0, 1, False, False))
+        cfgs.append((2, 1, 2, (-3.0, 6.0), 1, 1, True, False))
+    for (d, lmin, lmax, box, version, nrbe, auto, sd) in cfgs:
+        cap = {(2, 2): 60 if q else 110, (2, 3): 130, (3, 2): 160}[(d, lmax)]
+        js.append(Job('es-exact[d=%d,l=%d-%d,v=%d,nrbe=%d%s%s,box=%s]' % (d, lmin, lmax, version, nrbe, ',auto' if auto else '', ',single' if sd else '', box), es_exact,
+                      {'d': d, 'lmin': lmin, 'lmax': lmax, 'box': list(box), 'version': version, 'nrbe': nrbe, 'auto': auto, 'single_dim': sd, 'pool': 2, 'cap': cap},
+                      validate=(7 if q else 3), budget_s=(600 if q else 3000)))
+    for (d, level, cap) in ([(2, 1, 14), (2, 2, 30)] if q else [(2, 1, 24), (2, 2, 40), (3, 1, 40)]):
+        js.append(Job('cell-exact[d=%d,l=%d,cap=%d]' % (d, level, cap), cell_exact, {'d': d, 'level': level, 'box': [0.0, 1.0], 'cap': cap, 'pool': 2},
+                      validate=(5 if q else 2), budget_s=(600 if q else 3000)))
+    return js
